@@ -10,13 +10,14 @@ so a wrong repository constant shows up as a wrong flag/selection.
  flags-init     every presence flag is assigned False by a top-level statement before the magic test
                 and is assigned nowhere else outside the statements that follow the pair loop.
  size-check     between the magic test and the pair loop a raising `if` rejects differing block sizes.
- pair-layout    one iteration of the pair loop (unpack modelled from its format literal: uint64 length,
-                uint32 id) reads a value of length-4 bytes and appends exactly one block.
- duplicate      for every id sequence of length <= 3 over {v2, v3, v3.1, other}:
-                has_duplicate_apk_signature_ids() after k iterations == "some id occurred twice so far"
-                (the test must see the blocks parsed before the append).
- flags          after the loop, the statements that follow it are evaluated on the block list built by
-                the loop: is_signed_v2/v3/v31() must equal membership of the specification id.
+ block-part     parse_v2_v3_signature is evaluated from the statement after the central-directory check to its end
+                (locals defined on the way, size check, pair loop with its real loop condition, flag statements) on byte
+                encodings the checker generates from the documented layout (uint64 size, pairs of uint64 length /
+                uint32 id / value, uint64 size, magic) for every id sequence of length <= 3 over {v2, v3, v3.1, other}
+                (+ one of length 4), with all values non-empty and with one EMPTY value (a 12-byte pair) at every position.
+ pair-layout    every encoded pair is stored (the loop must also read a final 12-byte pair).
+ duplicate      has_duplicate_apk_signature_ids() == "some id occurs twice in the sequence".
+ flags          is_signed_v2/v3/v31() == membership of the specification id in the sequence.
  getters        is_signed_vX() with an unset flag triggers parse_v2_v3_signature and returns its own flag.
  selection      parse_v2_signing_block / parse_v3_signing_block(v31) are evaluated up to the first
                 io.BytesIO(...) over every such block list (flags consistent with the list): they must
@@ -28,7 +29,9 @@ so a wrong repository constant shows up as a wrong flag/selection.
 from __future__ import annotations
 
 import ast
+import io as _pyio
 import itertools
+import struct as _pystruct
 
 from ..cfg import raises_only
 from ..model import APK, AnalysisError, walk_no_nested
@@ -268,52 +271,100 @@ def check_magic_and_init(sink, repo, an):
 
 
 # --------------------------------------------------------------------------- pair loop, duplicate, flags
-def _run_sequence(repo, an, seq):
-    """run the pair-loop body once per id; -> (me, it, per-iteration records)"""
-    keys = list(seq)
-    log = []
-    it = _interp(repo, an, natives={"struct.unpack": _unpack_native(keys, log)})
-    me = _self_obj(an)
-    me.attrs[an.blocks_attr] = []
-    for a in an.flag_attr.values():
-        me.attrs[a] = False
-    recs = []
-    stream = Stream()
-    fnames = _free_names(an)
-    for k in seq:
-        nread = len(stream.reads)
-        nlog = len(log)
-        before = len(me.attrs[an.blocks_attr])
-        env = _env(it, an, me, **{n: stream for n in fnames})
+class ByteStream(PyModel):
+    """seekable byte stream over an encoding generated by the checker from the specification layout"""
+
+    def __init__(self, data, pos=0):
+        self._b = _pyio.BytesIO(data)
+        self._b.seek(pos)
+
+    def read(self, n=-1):
+        if n is None:
+            n = -1
+        if not isinstance(n, int):
+            raise NotModelled("read(%r) on the model stream" % (n,))
+        if n < -1:
+            raise ValueError("negative read length")
+        return self._b.read(n)
+
+    def tell(self):
+        return self._b.tell()
+
+    def seek(self, off, whence=0):
+        if not isinstance(off, int) or not isinstance(whence, int):
+            raise NotModelled("seek(%r, %r) on the model stream" % (off, whence))
         try:
-            it.exec_block(an.loop.body, env)
-        except PyRaise as e:
-            raise AnalysisError("pair loop body raised %s in the model" % e)
-        dup = it.call(it.getattr(me, "has_duplicate_apk_signature_ids"), [])
-        recs.append(dict(key=k, reads=stream.reads[nread:], ints=log[nlog:], appended=len(me.attrs[an.blocks_attr]) - before, dup=dup))
-    return me, it, recs
+            return self._b.seek(off, whence)
+        except (OSError, ValueError) as e:
+            raise ValueError(str(e))
+
+    def getvalue(self):
+        return self._b.getvalue()
 
 
-def _free_names(an):
-    """names the loop body reads before assigning: the stream variable(s)"""
-    assigned = set()
-    free = []
-    for s in an.loop.body:
-        for n in ast.walk(s):
-            if isinstance(n, ast.Name) and isinstance(n.ctx, ast.Load) and n.id not in assigned and n.id not in ("self",):
-                # only names used as receivers of .read/.tell/.seek
-                p = getattr(n, "_parent", None)
-                if isinstance(p, ast.Attribute) and p.attr in ("read", "tell", "seek") and n.id not in free:
-                    free.append(n.id)
-        for n in ast.walk(s):
-            if isinstance(n, ast.Name) and isinstance(n.ctx, ast.Store):
-                assigned.add(n.id)
-    if not free:
-        # trees without parent links (mutants): fall back to any receiver of .read
-        for n in ast.walk(an.loop):
-            if isinstance(n, ast.Attribute) and n.attr == "read" and isinstance(n.value, ast.Name) and n.value.id not in free:
-                free.append(n.value.id)
-    return free
+def _struct_unpack(fmt, data):
+    try:
+        return _pystruct.unpack(fmt, data)
+    except _pystruct.error as e:
+        raise PyRaise("struct.error", (str(e),))
+
+
+def _struct_calcsize(fmt):
+    return _pystruct.calcsize(fmt)
+
+
+def _encode(pairs):
+    """signing block per the public v2 document, placed between zip data and the central directory.
+    -> (file bytes, offset of the central directory)"""
+    body = b"".join(_pystruct.pack("<QI", 4 + len(v), k) + v for k, v in pairs)
+    size = len(body) + 24
+    block = _pystruct.pack("<Q", size) + body + _pystruct.pack("<Q", size) + apksig.MAGIC
+    prefix = b"PK\x03\x04" + b"\x11" * 36
+    central = b"PK\x01\x02" + b"\x22" * 42
+    return prefix + block + central, len(prefix) + len(block)
+
+
+def _stream_var(an):
+    for n in ast.walk(an.parse.node):
+        if isinstance(n, ast.Assign) and isinstance(n.value, ast.Call) and isinstance(n.value.func, ast.Attribute) \
+                and n.value.func.attr == "BytesIO" and len(n.targets) == 1 and isinstance(n.targets[0], ast.Name):
+            return n.targets[0].id
+    raise AnalysisError("anchor vanished: parse_v2_v3_signature no longer wraps the raw file in io.BytesIO assigned to a local")
+
+
+def _start_index(an):
+    """index of the first top-level statement after the signing block has been located: the statement following the
+    last raising test that precedes the first presence-flag initialisation (the central directory check)"""
+    body = an.parse.node.body
+    first_flag = None
+    for i, s in enumerate(body[:an.loop_idx]):
+        if isinstance(s, ast.Assign) and any(isinstance(t, ast.Attribute) and t.attr in an.flag_attr.values() for t in s.targets):
+            first_flag = i
+            break
+    if first_flag is None:
+        raise AnalysisError("no top-level initialisation of a presence flag before the pair loop (reported by flags-init); "
+                            "cannot locate the start of the signing-block part")
+    start = 0
+    for i, s in enumerate(body[:first_flag]):
+        if isinstance(s, ast.If) and raises_only(s.body):
+            start = i + 1
+        elif isinstance(s, (ast.While, ast.For)) and start <= i:
+            start = i + 1
+    return start
+
+
+def _run_block(repo, an, pairs):
+    """evaluate parse_v2_v3_signature from the point where the block has been located to its end"""
+    data, central = _encode(pairs)
+    it = _interp(repo, an, natives={"struct.unpack": _struct_unpack, "struct.calcsize": _struct_calcsize,
+                                    "io.SEEK_SET": 0, "io.SEEK_CUR": 1, "io.SEEK_END": 2, "os.SEEK_SET": 0, "os.SEEK_CUR": 1, "os.SEEK_END": 2})
+    me = _self_obj(an)
+    env = _env(it, an, me, **{_stream_var(an): ByteStream(data, central)})
+    try:
+        it.exec_block(an.parse.node.body[_start_index(an):], env)
+    except _Return:
+        pass
+    return me, it
 
 
 def _sequences():
@@ -323,61 +374,72 @@ def _sequences():
     yield tuple(ids)
 
 
+def _value_variants(seq):
+    """value sizes of the pairs: all non-empty (distinct contents), and one EMPTY value (a 12-byte pair) at every position"""
+    full = [bytes([0xA0 + i]) * (5 + i) for i in range(len(seq))]
+    yield "values non-empty", list(zip(seq, full))
+    for e in range(len(seq)):
+        yield "empty value at pair #%d of %d" % (e + 1, len(seq)), [(k, b"" if i == e else v) for i, (k, v) in enumerate(zip(seq, full))]
+
+
 def _names(seq):
     return "[%s]" % ", ".join(NAME_OF[k] for k in seq)
 
 
 def check_loop_and_flags(sink, repo, an):
     f = an.parse
-    tail = f.node.body[an.loop_idx + 1:]
     dup_bad = {}
     flag_bad = {}
+    layout_bad = {}
     built = []
     for seq in _sequences():
-        me, it, recs = _run_sequence(repo, an, seq)
         sink.count("sequences")
-        seen = []
-        values = []
-        for r in recs:
-            # pair layout
-            size = next((a for ch, a in r["ints"] if ch == "Q"), None)
-            vals = [t for n, t in r["reads"] if size is not None and isinstance(n, Lin) and n == size - 4]
-            ok = r["appended"] == 1 and len(vals) == 1
-            sink.check("pair-layout", "%s iteration %d" % (_names(seq), len(seen)), ok, f,
-                       "pair loop iteration: appended %d blocks, value reads of length size-4: %d" % (r["appended"], len(vals)),
-                       "one iteration of the pair loop must read a value of (length - 4) bytes and append one block; "
-                       "it appended %d block(s), reads: %s" % (r["appended"], [str(n) for n, t in r["reads"]]), node=an.loop,
-                       detail="one block per pair, value length = length - 4")
-            values.append(vals[0] if vals else None)
-            want = r["key"] in seen
-            seen.append(r["key"])
-            want_any = len(set(seen)) < len(seen)
-            if bool(r["dup"]) != want_any:
-                kind = "first occurrence flagged" if r["dup"] and not want_any else "repeated id not flagged"
-                dup_bad.setdefault(kind, []).append(_names(seen))
-            sink.ob("duplicate", "%s after %d pairs" % (_names(seq), len(seen)), bool(r["dup"]) == want_any,
-                    "ids %s: has_duplicate_apk_signature_ids() == %s" % (_names(seen), bool(r["dup"])))
-        # tail: flags
-        env = _env(it, an, me)
-        try:
-            it.exec_block(tail, env)
-        except _Return:
-            pass
-        except PyRaise as e:
-            raise AnalysisError("statements after the pair loop raised %s in the model" % e)
-        for scheme, g in FLAG_GETTERS.items():
+        for vlabel, pairs in _value_variants(seq):
+            sink.count("encodings")
+            where = "last" if vlabel.startswith("empty value at pair #%d " % len(seq)) else ("a non-final" if vlabel.startswith("empty") else "no")
             try:
-                got = it.call(it.getattr(me, g), [])
+                me, it = _run_block(repo, an, pairs)
+                blocks = me.attrs.get(an.blocks_attr)
+                n = len(blocks) if isinstance(blocks, list) else -1
+                err = None
             except PyRaise as e:
-                got = "raises %s" % e.name
-            want = SCHEMES[scheme] in seq
-            okf = (got is True and want) or (got is False and not want)
-            if not okf:
-                flag_bad.setdefault((scheme, "not set although a %s block is present" % scheme if want else
-                                     "set although no %s block is present (ids: %s)" % (scheme, "/".join(sorted({NAME_OF[k] for k in seq}))) if got else
-                                     "left %r" % (got,)), []).append(_names(seq))
-            sink.ob("flags", "%s %s" % (g, _names(seq)), okf, "ids %s: %s() == %r" % (_names(seq), g, got))
-        built.append((seq, me, values))
+                me, it, n, err = None, None, -1, "raises %s" % e.name
+            ok = n == len(seq)
+            if not ok:
+                layout_bad.setdefault("%s for a block with %s empty-valued pair" % (err or ("stores %s pairs than encoded" % ("fewer" if n < len(seq) else "more")), where), []).append(
+                    "%s, %s" % (_names(seq), vlabel))
+            sink.ob("pair-layout", "%s %s" % (_names(seq), vlabel), ok, "ids %s (%s): %s blocks stored" % (_names(seq), vlabel, n if err is None else err))
+            if err is not None:
+                continue
+            try:
+                dup = bool(it.call(it.getattr(me, "has_duplicate_apk_signature_ids"), []))
+            except PyRaise as e:
+                dup = "raises %s" % e.name
+            want_any = len(set(seq)) < len(seq)
+            if dup != want_any:
+                kind = ("first occurrence flagged" if dup is True else "repeated id not flagged" if dup is False else dup) + \
+                    " (%s empty-valued pair)" % where
+                dup_bad.setdefault(kind, []).append("%s, %s" % (_names(seq), vlabel))
+            sink.ob("duplicate", "%s %s" % (_names(seq), vlabel), dup == want_any,
+                    "ids %s (%s): has_duplicate_apk_signature_ids() == %s" % (_names(seq), vlabel, dup))
+            for scheme, g in FLAG_GETTERS.items():
+                try:
+                    got = it.call(it.getattr(me, g), [])
+                except PyRaise as e:
+                    got = "raises %s" % e.name
+                want = SCHEMES[scheme] in seq
+                okf = (got is True and want) or (got is False and not want)
+                if not okf:
+                    flag_bad.setdefault((scheme, ("not set although a %s block is present" % scheme if want else
+                                                  "set although no %s block is present (ids: %s)" % (scheme, "/".join(sorted({NAME_OF[k] for k in seq}))) if got is True else
+                                                  "left %r" % (got,)) + " (%s empty-valued pair)" % where), []).append("%s, %s" % (_names(seq), vlabel))
+                sink.ob("flags", "%s %s %s" % (g, _names(seq), vlabel), okf, "ids %s (%s): %s() == %r" % (_names(seq), vlabel, g, got))
+            if vlabel == "values non-empty":
+                built.append((seq, me, [v for k, v in pairs]))
+    for kind, seqs in sorted(layout_bad.items()):
+        sink.finding("pair-layout", f, "pair loop %s" % kind,
+                     "parse_v2_v3_signature %s, e.g. ids %s: every ID-value pair up to the trailing size field must be stored"
+                     % (kind, seqs[0]), node=an.loop, witness=seqs[:8])
     for kind, seqs in sorted(dup_bad.items()):
         sink.finding("duplicate", an.m.func("APK.has_duplicate_apk_signature_ids"), "duplicate flag: %s, e.g. ids %s" % (kind, seqs[0]),
                      "after parsing pairs with ids %s has_duplicate_apk_signature_ids() is wrong (%s): the duplicate test must compare "
@@ -478,10 +540,10 @@ def check_selection(sink, repo, an, built, lists):
             sink.count("selection_cases")
             if present:
                 first = values[list(seq).index(want_id)]
-                ok = outcome[0] == "selected" and outcome[1] is first
+                ok = outcome[0] == "selected" and isinstance(outcome[1], bytes) and outcome[1] == first
                 if not ok:
                     if outcome[0] == "selected":
-                        idx = [i for i, v in enumerate(values) if v is outcome[1]]
+                        idx = [i for i, v in enumerate(values) if isinstance(outcome[1], bytes) and v == outcome[1]]
                         what = ("selects the value of block #%d (%s) instead of the first %s block" % (
                             idx[0] + 1, NAME_OF[seq[idx[0]]], scheme)) if idx else "wraps something that is not a block value"
                         if idx and seq[idx[0]] == want_id:
@@ -762,13 +824,14 @@ def run(ctx):
     ctx.floor("flag_inits", 3)
     ctx.floor("size_checks", 1)
     ctx.floor("sequences", 85)
+    ctx.floor("encodings", 317)
     ctx.floor("getter_cases", 24)
     ctx.floor("selection_cases", 255)
     ctx.floor("data_getter_cases", 6)
     ctx.floor("append_sites", 3)
-    ctx.assume("pair layout per the public v2 document: uint64 length, uint32 id, (length-4) value bytes; "
-               "the first uint32 unpacked in a loop iteration is the pair id")
-    ctx.note("not decided: location of the block via the ZIP end-of-central-directory scan, the while-condition of the pair loop, "
+    ctx.assume("signing block layout per the public v2 document: uint64 size, pairs (uint64 length, uint32 id, length-4 value bytes), "
+               "uint64 size, 16-byte magic, immediately before the central directory; the model stream is positioned at the central directory")
+    ctx.note("not decided: location of the block via the ZIP end-of-central-directory scan, "
              "equality of signer/digest/certificate/attribute fields with the encoded bytes (needs run-time data)")
     ctx.note("has_duplicate_apk_signature_ids() does not trigger parsing itself (returns False on an unparsed APK); outside the clauses")
     if ctx.tier == "thorough":
